@@ -65,6 +65,19 @@ func runCaseOf(c map[string]any) runCase {
 				}
 			}
 		}
+		if gs, ok := p["gotypes"].([]any); ok {
+			for _, g := range gs {
+				a, _ := g.([]any)
+				if len(a) == 3 {
+					k, t, _ := unhx(a[0]), fmt.Sprint(a[1]), 0
+					for i := range rc.Point.Fields {
+						if rc.Point.Fields[i].K == k {
+							rc.Point.Fields[i] = fieldSpec{k, t, fmt.Sprint(a[2])}
+						}
+					}
+				}
+			}
+		}
 		if t, ok := num(p["time"]); ok {
 			rc.Point.Time = t
 		}
@@ -73,6 +86,7 @@ func runCaseOf(c map[string]any) runCase {
 		rc.SigK = int(k)
 	}
 	rc.HasSig, _ = c["hassig"].(bool)
+	rc.Recheck, _ = c["recheck"].(bool)
 	if h, ok := num(c["held"]); ok {
 		rc.Held = int(h)
 	}
@@ -132,7 +146,8 @@ func operands() []operand {
 	for _, s := range []string{`""`, `"a"`, `"ab"`, `"é"`, `"0"`} {
 		ops = append(ops, operand{"str", s, fs("str", strings.Trim(s, `"`))})
 	}
-	for _, s := range []string{"[]", "[1]", `[1, "a"]`, "[[1]]", `["a"]`} {
+	// (an empty list that is not written as a literal: equal to `[]` however it was made)
+	for _, s := range []string{"[]", "[1][1:]", "[1]", `[1, "a"]`, "[[1]]", `["a"]`, "[[1][1:]]"} {
 		ops = append(ops, operand{"list", s, nil})
 	}
 	for _, s := range []string{"{}", `{"a": 1}`, `{"a": 1, "ab": nil}`} {
